@@ -709,6 +709,9 @@ class builder_finalize:
     finish = _finalize_finish
     may_raise = {OSError: None}
     modifies = ["self.returncode", "self.workflow.to_be_deleted"]
+    # C05: the clean-up of a complete build does not depend on what this session happened to execute (a restarted build
+    # that only skips must still remove what a killed session left detached)
+    partial_props = {"C05": ["cleanup_all_or_nothing"]}
 
 
 @structural("C06/scan/clean_tool_is_read_only", props=["C06"],
